@@ -69,6 +69,7 @@ class Lock:
 def coq_make(targets=None, timeout=3000):
     """full .vo build of the development (incremental).  Returns (ok, output)."""
     with Lock("coq.lock"):
+        coq_project()
         if not os.path.exists(os.path.join(COQ, "Makefile")) or \
            os.path.getmtime(os.path.join(COQ, "Makefile")) < os.path.getmtime(os.path.join(COQ, "_CoqProject")):
             rc, o = sh("coq_makefile -f _CoqProject -o Makefile", cwd=COQ, timeout=120)
@@ -77,6 +78,21 @@ def coq_make(targets=None, timeout=3000):
         cmd = ["make", "-j16"] + (targets or [])
         rc, o = sh(cmd, cwd=COQ, timeout=timeout)
         return rc == 0, o
+
+
+def coq_project():
+    """_CoqProject lists every .v file under coq/ (regenerated when the set changes)"""
+    files = []
+    for root, _, names in os.walk(COQ):
+        for n in names:
+            if n.endswith(".v") and not n.startswith("zz_goals_tmp"):
+                files.append(os.path.relpath(os.path.join(root, n), COQ))
+    text = "-Q . HV\n-arg -w -arg -notation-overridden,-deprecated-hint-without-locality,-deprecated-instance-without-locality\n" + \
+        "\n".join(sorted(files)) + "\n"
+    p = os.path.join(COQ, "_CoqProject")
+    if not os.path.exists(p) or open(p).read() != text:
+        with open(p, "w") as f:
+            f.write(text)
 
 
 def coq_failed_file(output):
@@ -237,8 +253,15 @@ def read_obs(path):
 # --------------------------------------------------------------------------- findings / verdicts
 
 def known_findings():
-    with open(os.path.join(VERIF, "known_findings.json")) as f:
-        return json.load(f)
+    """merged view of the committed findings/C??.json files (hand-written, never written at run time);
+    known_findings.json is the same content in one file (bin/mkmanifest)"""
+    out = {"findings": [], "fixed": []}
+    for p in sorted(glob.glob(os.path.join(VERIF, "findings", "C*.json"))):
+        with open(p) as f:
+            k = json.load(f)
+        out["findings"] += k.get("findings", [])
+        out["fixed"] += k.get("fixed", [])
+    return out
 
 
 class Report:
